@@ -8,6 +8,10 @@ use crate::value::{
     CheapClone, ExoticObject, Guarded, JsObject, JsObjectRef, JsString, JsValue, PropertyKey,
 };
 
+/// Longest array `new Array(len)` creates. Arrays are stored densely, so a longer one is
+/// an allocation no host survives; it is refused with a RangeError like an invalid length.
+const MAX_DENSE_ARRAY_LENGTH: usize = 1 << 26;
+
 /// Convert a number to a length value per ECMAScript ToLength.
 /// Clamps to [0, 2^53 - 1] (MAX_SAFE_INTEGER) and truncates.
 fn to_length(n: f64) -> u32 {
@@ -188,11 +192,17 @@ pub fn array_constructor_fn(
     if args.len() == 1
         && let Some(JsValue::Number(n)) = args.first()
     {
-        let len = *n as u32;
-        let mut elements = Vec::with_capacity(len as usize);
-        for _ in 0..len {
-            elements.push(JsValue::Undefined);
+        // `new Array(len)`: len must be an array length (an integer in [0, 2^32-1]).
+        // Arrays are dense here, so a length the process cannot allocate is refused the
+        // same way instead of aborting on the allocation.
+        if !(*n >= 0.0 && *n <= u32::MAX as f64 && crate::prelude::math::fract(*n) == 0.0)
+            || *n > MAX_DENSE_ARRAY_LENGTH as f64
+        {
+            return Err(JsError::range_error("Invalid array length"));
         }
+        let len = *n as usize;
+        let mut elements = Vec::with_capacity(len);
+        elements.resize(len, JsValue::Undefined);
         let guard = interp.heap.create_guard();
         let arr = interp.create_array_from(&guard, elements);
         return Ok(Guarded::with_guard(JsValue::Object(arr), guard));
